@@ -141,7 +141,10 @@ ObsWr(e) ==
                d == IF w.ty \in {1,2,3} THEN Dec(ReplyKind(w.ty), clr) ELSE Bad
                new == Tags({ << o.cls = "W", "C19" >>,
                              << o.wr >= 1, "C07" >>,
-                             << o.cls = "M" /\ ~( lenok /\ w.ty = o.req.ty /\ w.sid = o.req.sid /\ d.ok /\ d.v.status = ErrStatus(w.ty) ), "C19" >> })
+                             << o.cls = "M" /\ ~( lenok /\ w.ty = o.req.ty /\ w.sid = o.req.sid /\ d.ok /\ d.v.status = ErrStatus(w.ty) ), "C19" >>,
+                             \* the error packet is a packet the server wrote: what is on the wire, read under the connection's
+                             \* secret, must be a reply body of the type (cleartext XOR pad for SOME reply the server meant)
+                             << o.cls = "M" /\ lenok /\ w.ty \in {1,2,3} /\ ~d.ok, "C03" >> })
            IN [o EXCEPT !.wr = @ + 1, !.bad = @ \cup new]
       ELSE \* a handler's reply
            LET clr == WClrTab[l]
